@@ -326,7 +326,7 @@ func transformTokens(rt *rapid.T, toks []bn.Tok, doDigits, doSyn, doRename, doLa
 			case choice == 0:
 				b.WriteString("\t")
 			case choice == 1:
-				b.WriteString("/* c" + fmt.Sprint(k) + " */")
+				b.WriteString([]string{"/* c" + fmt.Sprint(k) + " */", "/**/", "/***/", "/* x **/", "/** doc **/", "/*/ toggle */", "/* a * b / c */", "/*\t*/"}[rapid.IntRange(0, 7).Draw(rt, "commentForm")])
 			case choice == 2 && !noBreak:
 				b.WriteString("\n")
 				cnt.layout++
